@@ -4,13 +4,13 @@ Decided statically (necessary conditions, DESIGN.md section 6 C05): the shape of
 (single critical section, wrap constants, skip loop, publish/insert/return of the same candidate),
 who may touch the ID table, and that the driver never releases an ID that is still routed."""
 from facts import walk, callee_of, call_args, loc
-import hirq, anchors, absx, sem
+import hirq, anchors, absx, sem, setfacts
 
 EXPLANATION = ("Structural rules over the typed HIR of the ID allocator and of every access to the ID table "
                "(Arc<Mutex<(RequestId, HashSet<RequestId>)>>): N1 one lock, every access through that guard; "
                "N2 candidate starts at the stored counter, is reset to 1 exactly when it equals i32::MAX and is "
-               "otherwise incremented by 1, table initialised to (0, empty); N3 the search loop is left only when "
-               "the freshly updated candidate is not in the in-use set; N4 the same candidate is stored, inserted and "
+               "otherwise incremented by 1, table initialised to (0, empty); N3 the search loop is left only on paths whose "
+               "condition entails that the freshly updated candidate is not in the in-use set (found not to be a member, or the set found empty; what the path observed of the set before it first changes it - rules/setfacts.py); N4 the same candidate is stored, inserted and "
                "returned; N5 who-may-touch: counter writes (through any alias of the place: `guard.0`, a destructured or re-borrowed guard) and set inserts only in the allocator - a store in the driver loop is accepted only when its arm's paths show it writes back the counter's own current value -, allocator called only "
                "from the operation issue point whose request tuple carries that value, set removals only in the driver "
                "loop - a `retain` is judged by the removals it amounts to: in the driver loop named IDs only, anywhere else none at all, a predicate about an ID's magnitude being decided against the allocator's own invariant (every member is in 1..=i32::MAX; used only when N2 / N4 / N8 and the other N5 obligations establish it on the analysed tree) -; N6 on every enumerated path of a select! arm a release comes with the un-routing of the same ID (or is the Abandon "
@@ -85,15 +85,17 @@ def run(ctx):
             defs = [(V, o)]
         for Vd, od in defs:
             check_step(ctx, A, root, Vd, od, CNT, carried, sig, MAX)
-        # N3 left only when the candidate is free
-        free = any((not t) and a[0] == 'call' and a[1].endswith('HashSet::<T, S, A>::contains') and is_set(a[2][0]) and a[2][1] == V for a, t in o.st.pc) or \
-            any(t and a[0] == 'call' and a[1].endswith('HashSet::<T, S, A>::insert') and is_set(a[2][0]) and a[2][1] == V for a, t in o.st.pc) or \
-            sem.succeeded(o, lambda x: False)
+        # N3 left only when the candidate is free: the condition of the path that leaves the search must ENTAIL that the candidate
+        # is not a member of the in-use set in the state in which it is claimed (setfacts: found not to be a member - `contains`,
+        # `get`, the answer of the claiming `insert` itself - or the set found to have no member at all - `is_empty`, `len() == 0`).
+        # A test of the candidate against the counter or a bound, or of the set's size against anything but zero, entails nothing.
         ins = [(i, args) for i, cal, args, node in sem.calls(o, lambda c: c.endswith('HashSet::<T, S, A>::insert')) if is_set(args[0])]
-        if not free:
-            # `if set.insert(v) { break }`: the boolean result of insert is the probe
-            free = any(t and a[0] == 'call' and a[1].endswith('::insert') and a[2][1] == V for a, t in o.st.pc)
-        ctx.add('N3.exit-only-when-free', A.path + '|' + sig, loc(root), free, 'the allocator returns an ID on a path that did not find it absent from the in-use set')
+        obs = setfacts.before_first_change(o, is_set, lambda pl: sem.has(sem.strip_site(SET), lambda z: z == sem.strip_site(pl)))
+        free, why = setfacts.entails_absent(obs, o.st.pc, is_set, V)
+        last = ('`%s`' % (('' if o.st.pc[-1][1] else 'not ') + absx.fmt(sem.strip_site(o.st.pc[-1][0]))[:90])) if o.st.pc else 'no condition'
+        ctx.add('N3.exit-only-when-free', A.path + '|' + sig, loc(root), free,
+                'the allocator returns an ID on a path that did not find it absent from the in-use set: the search is left under %s without the candidate %s having been found free%s'
+                % (last, absx.fmt(V)[:40], ' (%s)' % why if why else ''))
         # N4 claim: stored, inserted, returned - the same value, under the same guard
         st_cnt = [(i, val) for i, place, val, node in sem.stores(o, lambda pl: sem.strip_site(pl) == sem.strip_site(CNT))]
         ctx.add('N4.store-candidate', A.path + '|' + sig, loc(root), bool(st_cnt) and st_cnt[-1][1] == V,
@@ -181,7 +183,7 @@ def run(ctx):
                     ctx.add('N5.insert-owner', path, loc(n), path == C.alloc_path, 'insert into the in-use set outside the allocator')
                 elif m == 'remove':
                     ctx.add('N5.remove-owner', path, loc(n), path == C.loop_path, 'release of an ID outside the driver loop')
-                elif m in ('contains', 'len', 'is_empty'):
+                elif m in ('contains', 'len', 'is_empty', 'get'):     # observers (`&self`, the elements are plain integers): what a path learns from them is setfacts'
                     ctx.ok('N5.read', path + '|' + m, loc(n))
                 elif m == 'retain':
                     retains.append((path, h, n))        # judged below by what it does (the removals it amounts to)
